@@ -34,6 +34,13 @@ CONTAINERS = [
     ("small", "<small>", "</small>"),
     ("sup", "<sup>", "</sup>"),
     ("p", "<p ATTR>", "</p>"),
+    # malformed HTML: content directly inside a list / table / row (error recovery of the parser)
+    ("ul-stray", "<ul ATTR>", "<li>one</li></ul>"),
+    ("ol-stray", "<ol><li>zero</li>", "</ol>"),
+    ("table-stray", "<table ATTR>", "<tr><td>c</td></tr></table>"),
+    ("tr-stray", "<table><tr>", "<td>c</td></tr></table>"),
+    ("li-in-cell", "{|\n| <ul>", "<li>x</li></ul>\n|}"),
+    ("unclosed-div", "<div ATTR><b>", ""),
 ]
 
 LEAVES = [
@@ -69,7 +76,8 @@ LEAVES = [
 ]
 
 ATTR_PLACEHOLDER = 'id="zzid" class="zzcls" style="zzkey:zzval"'
-STYLE_COMPANIONS = {"height": "300px", "width": "300px"}  # fixed declarations next to the symbolic one (lengths go through float(): C code)
+STYLE_COMPANIONS = {"height": "300px", "width": "300px"}  # declarations next to the symbolic one (lengths go through float(): C code)
+LENGTHS = ["300px", "50%", "abc"]  # vocabulary for the height declaration, chosen by a symbolic index
 STYLE_KEYS = ["overflow", "position", "height", "width", "display", "visibility", "direction", "text-align", "border", "float"]
 ATTR_SHAPES = [  # (outer container, inner container, leaf, which container carries the symbolic attributes: 1 outer / 2 inner)
     ("div", "none", "word", 1),
@@ -155,7 +163,7 @@ def build_tree(markup):
     return untraced(go)
 
 
-def inject_attrs(tree, sid, scls, skey, sval):
+def inject_attrs(tree, sid, scls, skey, sval, height="300px"):
     """replace the placeholder attribute values by (symbolic) ones; returns the number of nodes touched"""
     n = 0
     for node in tree.allchildren():
@@ -164,6 +172,7 @@ def inject_attrs(tree, sid, scls, skey, sval):
             vl["id"] = sid
             vl["class"] = scls
             st = dict(STYLE_COMPANIONS)
+            st["height"] = height
             st[skey] = sval
             vl["style"] = st
             n += 1
@@ -272,7 +281,19 @@ def attr_sensitive_passes():
             cache[m] = closure_src(m, set())
         if any(t in cache[m] for t in tokens):
             res.append(i)
+    PASS_STYLE_KEYS.clear()
+    for i in res:
+        keys = []
+        for k in re.findall(r"style(?:\.get\(|\[)\s*[\"']([\w-]+)[\"']", cache[methods[i]]):
+            if k not in keys and k != "height":
+                keys.append(k)
+        PASS_STYLE_KEYS[i] = tuple(keys) if keys else ("display", "position")
+        PASS_USES_LENGTH[i] = ("scale_length" in cache[methods[i]]) or ('"height"' in cache[methods[i]])
     return res, methods
+
+
+PASS_STYLE_KEYS = {}
+PASS_USES_LENGTH = {}
 
 
 def run_passes(tree, props, want_words=False, first=0, last=None, symbolic_at=None):
@@ -383,7 +404,7 @@ def h_shape3(l1: int, l2: int, l3: int, c1: int, c2: int, props: tuple):
     return v
 
 
-def h_attr(sid: str, scls: str, skey: int, sval: str, shape: int, pass_index: int, props: tuple, maxlen: int = 14):
+def h_attr(sid: str, scls: str, skey: int, sval: str, hidx: int, shape: int, pass_index: int, props: tuple, keys: tuple = (), lengths: bool = True, maxlen: int = 14):
     """One node of the document carries a symbolic id, class and one style declaration (key from STYLE_KEYS, symbolic
     value).  The passes before `pass_index` run concretely on placeholder values; the symbolic values are injected
     right before the pass under test, which runs under the tracer."""
@@ -391,13 +412,16 @@ def h_attr(sid: str, scls: str, skey: int, sval: str, shape: int, pass_index: in
     c1n, c2n, ln, attr_on = ATTR_SHAPES[shape]
     markup = compose(cidx(c1n), cidx(c2n), lidx(ln), None, attr_on=attr_on)
     tree = build_tree(markup)
-    key = STYLE_KEYS[choose(skey, len(STYLE_KEYS))]
-    v = run_passes(tree, props, symbolic_at=(pass_index, lambda t: inject_attrs(t, sid, scls, key, sval) >= 1))
+    keys = tuple(keys) or tuple(STYLE_KEYS)
+    key = keys[choose(skey, len(keys))]
+    height = LENGTHS[choose(hidx, len(LENGTHS))] if lengths else "300px"  # only passes that scale lengths get the vocabulary
+    v = run_passes(tree, props, symbolic_at=(pass_index, lambda t: inject_attrs(t, sid, scls, key, sval, height) >= 1))
     if v is not None and v.get("ignore"):
         assume(False)  # the node carrying the attributes was removed by an earlier pass: nothing to check for this pass
     if v is not None:
         v["markup"] = markup
         st = dict(STYLE_COMPANIONS)
+        st["height"] = height
         st[key] = sval
         v["attrs"] = {"id": sid, "class": scls, "style": st}
     return v
